@@ -24,8 +24,11 @@ About the parse model (all sub-expression behaviours `p`): `matchfirst_tokens_of
 Code fact worth a theorem: `replaced_tokens_first_only` (after a token-replacing parse action a list-valued name reports
   the FIRST token only — results.py:203 `ParseResults(toklist[0])`).
 
+Hidden tokens (`Tok.hid`: FollowedBy's `del ret[:]`, the parts of a Combine) keep their names: `hidden_keeps_names`,
+  `followedby_keeps_names`, `combine_keeps_names`, `combine_named_nests`, `hasKeys_is_haskeys`.
+
 PARTIAL w.r.t. the statement: `dump()` is not modelled in Lean (checked on the real code against the same view); names
-inside Combine / FollowedBy / Dict are not in the parse model (oracle on the real code only).  The tie between the
+of Dict entries are not in the parse model (oracle on the real code only).  The tie between the
 annotated tree and the real parser is the correspondence leg (harness/props/c05.py).
 -/
 namespace PP.Names
